@@ -159,7 +159,23 @@ class Graph(object):
                 val[i] = b
         t = blk.term
         if t.kind == "call" and t.dest is not None and t.dest.is_local() and t.dest.local in self.flags:
-            val[self.flags.index(t.dest.local)] = self.callhook(blk.idx, t) if self.callhook is not None else None
+            r = self.callhook(blk.idx, t) if self.callhook is not None else None
+            if r is None and t.callee and short(t.callee["def"]).endswith("Try::branch") and t.args and t.args[0].place is not None \
+                    and t.args[0].place.is_local() and t.args[0].place.local in self.flags:
+                a = val[self.flags.index(t.args[0].place.local)]
+                if isinstance(a, tuple) and a[0] == "tag":
+                    ty = self.body.locals[t.args[0].place.local].get("s", "")
+                    if "option::Option<" in ty:
+                        r = ("tag", 0 if a[1] == 1 else 1)      # Some -> Continue(0), None -> Break(1)
+                    elif "result::Result<" in ty:
+                        r = ("tag", a[1])                        # Ok(0) -> Continue(0), Err(1) -> Break(1)
+            if r is None and t.callee and short(t.callee["def"]).endswith("FromResidual::from_residual"):
+                ty = self.body.locals[t.dest.local].get("s", "")
+                if "result::Result<" in ty:
+                    r = ("tag", 1)      # the error of a `?` re-wrapped: always Err
+                elif "option::Option<" in ty:
+                    r = ("tag", 0)
+            val[self.flags.index(t.dest.local)] = r
         return tuple(val)
 
     def _switch_flag(self, blk):
@@ -1012,6 +1028,13 @@ class Analyzer(object):
                 elif e[0] == "call" and short(e[1]).endswith("PartialEq::ne") and len(e[3]) == 2:
                     # `a != b` is reported as the test `a == b` with the edge labels exchanged
                     e = ("call", e[1][:-2] + "eq", (e[2][:-2] + "eq") if e[2] and e[2].endswith("::ne") else e[2]) + tuple(e[3:])
+                    neg = not neg
+                elif e[0] == "call" and len(e[3]) == 1 and short(e[1]).endswith(("::is_pending", "::is_err")) \
+                        and short(e[1]).split("::")[-2].split("<")[0] in ("Poll", "Result"):
+                    # the negative spelling of a two-valued test is reported as the positive one with the edges exchanged
+                    pos = {"is_pending": "is_ready", "is_err": "is_ok"}[short(e[1]).split("::")[-1]]
+                    cut = len(short(e[1]).split("::")[-1])
+                    e = ("call", e[1][:-cut] + pos, (e[2][:-cut] + pos) if e[2] and e[2].endswith(short(e[1]).split("::")[-1]) else e[2]) + tuple(e[3:])
                     neg = not neg
                 else:
                     break
